@@ -164,6 +164,9 @@ func takeCPUs(
 			})
 			cpusPerCore := acc.topology.CPUsPerCore()
 			for _, cpus := range freeCPUs {
+				if !acc.needs(cpusPerCore) {
+					break
+				}
 				for i := 0; i < len(cpus); i += cpusPerCore {
 					acc.take(cpus[i : i+cpusPerCore]...)
 					if acc.isSatisfied() {
